@@ -82,7 +82,7 @@ def main():
             print(sid, "patch does not apply", a.stderr)
             continue
         row = {}
-        if "--own" in args:
+        if "--own" in args or "--props" in args:       # a partial run: the other cells keep what an earlier run put there
             mp0 = os.path.join(V, root, "matrix.json")
             row = dict((json.load(open(mp0)) if os.path.exists(mp0) else {}).get(sid, {}))
         try:
